@@ -158,11 +158,13 @@ def run (C : Crypto) (repaired : Bool) : Sys → List Op → Sys
   | s, [] => s
   | s, op :: rest => run C repaired (step C repaired s op) rest
 
+/-- the connection an event concerns -/
+def Event.conn : Event → Nat
+  | .resp c _ => c
+  | .dropped c _ => c
+  | .close c => c
+
 /-- the events concerning connection `c` -/
-def eventsOf (c : Nat) (t : List Event) : List Event :=
-  t.filter fun e => match e with
-    | .resp d _ => d == c
-    | .dropped d _ => d == c
-    | .close d => d == c
+def eventsOf (c : Nat) (t : List Event) : List Event := t.filter fun e => e.conn == c
 
 end Hap.Sess
